@@ -7,23 +7,23 @@ LEVEL_NOTE = ("Trusted base: go1.26.8 go/types, x/tools v0.50.0 go/ssa + VTA cal
               "bounds-check elimination. The check decides structural necessary conditions of the property on every path of the code; "
               "it does not decide the value-level behaviour named under not_decided in the evidence file.")
 claimed = {
- "C01": ("static analysis: SSA def-use rules R-FWD, R-OPTFWD(patch side), R-PATHFRESH, R-KINDS, R-PROV over the v2 diff/patch family",
+ "C01": ("static analysis: SSA def-use rules R-FWD, R-OPTFWD(patch side), R-PATHFRESH, R-KINDS, R-PROV over the v2 diff/patch family; option forwarding also on the Equals and diff sides",
          "Necessary structural conditions of the diff-then-patch round trip are decided for all inputs at once (forwarding of old/new/strategy/path through every recursive patch call, option agreement in identity lookups, hunk paths not aliased with the recursion's scratch path, emitted path kinds routed back to the same container semantics). The cursor arithmetic of the LCS walk is value-level and not decided.", "4 C01"),
- "C03": ("static analysis: SSA forwarding rule R-FWD (all roles), R-PATCHRESULT, cut-set rule R-EXPECT over the CFG of every patch implementation; length-comparison cut set on one-sided container Equals (R-EQSIZE); checking helpers verified interprocedurally",
+ "C03": ("static analysis: SSA forwarding rule R-FWD (all roles), R-PATCHRESULT, cut-set rule R-EXPECT over the CFG of every patch implementation; length-comparison cut set on one-sided container Equals (R-EQSIZE); checking helpers verified interprocedurally; fresh objects only under merge strategy (R-CREATE); no silently ignored hunk (R-NOTIGNORED)",
          "Every strict commit of a list-mode hunk is shown to lie behind its context / old-value checks on every CFG path, the failing side of each check only returns errors, and expectations are forwarded unchanged to any depth. Index arithmetic of the compared positions is not decided.", "4 C03"),
- "C04": ("static analysis: type-guard cut sets on every Equals, constant-prefix (domain tag) and coverage analysis of every hashCode, option forwarding; dispatch option->container table extraction (R-DISPATCH); length-comparison cut set on one-sided container Equals (R-EQSIZE)",
+ "C04": ("static analysis: type-guard cut sets on every Equals, constant-prefix (domain tag) and coverage analysis of every hashCode, option forwarding; dispatch option->container table extraction (R-DISPATCH); length-comparison cut set on one-sided container Equals (R-EQSIZE); hashCode comparisons only inside set/multiset (R-HASHEQ)",
          "Type separation of Equals and of the hash domains that SET/MULTISET equality relies on is decided structurally for all ten node types; four untagged hash domains are genuine defects recorded as known findings with concrete witnesses. Collisions inside one type and precision arithmetic are not decided.", "4 C04"),
  "C15": ("static analysis: interprocedural storage-origin / mutation-summary analysis (R-PURE), order-insensitivity of every map range (R-MAPORDER)",
          "No instruction reachable from the read-only API writes memory reachable from its inputs, and no map iteration order can reach an output: decided for all call histories because it is a property of the code, not of a run.", "4 C15"),
- "C05": ("static analysis: option-forwarding rule over all diff functions, Equals/hashCode option congruence, hash-domain tags of list elements, CLI exit-status dataflow; R-EQSIZE",
+ "C05": ("static analysis: option-forwarding rule over all diff functions, Equals/hashCode option congruence, hash-domain tags of list elements, CLI exit-status dataflow; R-EQSIZE; R-HASHEQ; R-IDENTUSE",
          "Structural necessary conditions of `Diff empty iff Equals` (Diff consults the options Equals is asked about; hash-based matching sees the same equivalence; exit status 1 exactly where the rendered diff is non-empty) are decided for all inputs; three genuine defects are recorded as known findings with witnesses. Digest collisions and merge-sentinel ambiguity are not decided.", "4 C05"),
  "C13": ("static analysis: may-panic site inventory over the read/patch call-graph closure, discharged by compiler bounds-check elimination, guard-fact dataflow and closed-world lemmas; CLI error-routing rule; difference-term guard facts and interprocedural entry facts for unexported helpers",
          "Every potentially panicking instruction reachable from reading arbitrary text or applying a read diff is an obligation discharged by a named schema or reported; this is a proof-style inventory over all inputs for the stated scope (Diff and the renderers are outside it).", "4 C13"),
- "C14": ("static analysis: control/data-flow contract rules over both package main (exit discipline, output sinks, flag/mode tables by flag-value pruning, input provenance, error routing); library selection by -v2 over the interprocedural flag-pruned reach, option slices never zero on a feasible flag combination (R-CLI/V)",
+ "C14": ("static analysis: control/data-flow contract rules over both package main (exit discipline, output sinks, flag/mode tables by flag-value pruning, input provenance, error routing); library selection by -v2 over the interprocedural flag-pruned reach, option slices never zero on a feasible flag combination (R-CLI/V); rendered diff is the library Diff on every path; exit events through phis",
          "The CLI contract is decided as facts about every path of both binaries: exit codes, -o exclusivity, printed value = library rendering, flag→option and mode→reader/renderer tables for every documented value, input roles, error routing. Content-level round trips are not decided.", "4 C14"),
- "C07": ("static analysis: dominator/cut-set rule on hunk emission (R-NOEMPTY), lookup-miss control dependence (R-SETMEMBER), provenance slices (R-PROV), path freshness (R-PATHFRESH); both-sides dependence of the copy-count loop bound in the multiset diff (R-BAGCOUNT)",
+ "C07": ("static analysis: dominator/cut-set rule on hunk emission (R-NOEMPTY), lookup-miss control dependence (R-SETMEMBER), provenance slices (R-PROV), path freshness (R-PATHFRESH); both-sides dependence of the copy-count loop bound in the multiset diff (R-BAGCOUNT); whole-array replacement only on the type-miss edge or under merge (R-WHOLEARR)",
          "Necessary structural conditions of `every hunk is a real difference` are decided on every path of the diff functions; per-value statements (removed differs from added, leave-one-out redundancy) are not.", "4 C07"),
- "C08": ("static analysis: cut-set / loop-verification rule R-EXPECT over jsonSet.patch and jsonMultiset.patch, R-PATCHRESULT, R-FWD, R-KINDS, R-IDENTUSE; key-binding of the member-selection digest under option feasibility (R-KEYBIND), identity provenance (R-IDENTPROV), exhaustive search (R-SEARCHALL)",
+ "C08": ("static analysis: cut-set / loop-verification rule R-EXPECT over jsonSet.patch and jsonMultiset.patch, R-PATCHRESULT, R-FWD, R-KINDS, R-IDENTUSE; key-binding of the member-selection digest under option feasibility (R-KEYBIND), identity provenance (R-IDENTPROV), exhaustive search (R-SEARCHALL); R-NOTIGNORED; underflow test before the adds",
          "Every success return of a set/multiset hunk is shown to lie behind the lookup and comparison of each removed member (or the count-underflow test), with error-only failure sides; the dropped outcome of the keyed-member patch is a genuine defect recorded as a known finding. Order independence on concrete values is not decided.", "4 C08"),
  "C02": ("static analysis: finite-automaton extraction from readDiff's SSA by assumption-pruned reachability, writer line-grammar extraction from Render, exhaustive product simulation; table inverses R-PATHTAB; codec who-may-call R-JSONCODEC",
          "The reader's full transition/flush/effect table and the writer's line grammar are extracted from the code and every hunk sequence (up to 3 hunks over all 75 hunk shapes the property names) is simulated against them: no loss, no rejection, right field per line. This is exhaustive over the finite line-kind abstraction; payload bytes are not decided.", "4 C02"),
@@ -31,15 +31,15 @@ claimed = {
          "Decides only the structural part: every dynamic type either codec produces has a conversion arm to the right node type and each format is read/written through its own codec with default settings. Scalar quoting and float formatting are library behaviour on values and are not decided.", "4 C16"),
  "C09": ("static analysis: path/taint rules on writePointer (R-PTR), op-literal pairing (R-PAIR), reverse traversal of same-index adds (R-REVADD); linear-form normalisation of the context test indices with edge-wise guard facts (R-CTXINDEX); R-PURE on RenderPatch",
          "Decides that the JSON Patch writer escapes every key, refuses inexpressible paths, never skips a path element, emits only test/remove/add with every remove guarded by an identical test, and orders same-index adds for an insert-before evaluator. Equivalence with an RFC 6902 evaluator on values (context test indices) is not decided.", "4 C09"),
- "C10": ("static analysis: cut-set rule on the test+remove pairing (R-OPSUBSET), pointer-relation rule for context consumption (R-PARENT), token table (R-PTRREAD), coalescing order (R-PREPEND), context forwarding (R-FWD); R-CTXINDEX on the writer whose output the reader must reproduce; R-PTRAGREE",
+ "C10": ("static analysis: cut-set rule on the test+remove pairing (R-OPSUBSET), pointer-relation rule for context consumption (R-PARENT), token table (R-PTRREAD), coalescing order (R-PREPEND), context forwarding (R-FWD); R-CTXINDEX on the writer whose output the reader must reproduce; R-PTRAGREE; R-EXPECT on the context loops the folded-in test ops rely on",
          "Decides the structural conditions under which the JSON Patch reader could be more permissive than the RFC: unchecked pairs, foreign ops, context tests taken from another array, context dropped on the way to a nested array. The index case analysis of the context inference is not decided.", "4 C10"),
- "C11": ("static analysis: merge-strategy control dependence of hunk literals (R-MERGEHUNK diff side), void→null conversion and refusal of strict hunks in RenderMerge; no void marker handed to a nested diff (R-VOIDARG); R-DELETEVOID; R-WHOLEOBJ",
+ "C11": ("static analysis: merge-strategy control dependence of hunk literals (R-MERGEHUNK diff side), void→null conversion and refusal of strict hunks in RenderMerge; no void marker handed to a nested diff (R-VOIDARG); R-DELETEVOID; R-WHOLEOBJ; R-HASHEQ",
          "Narrow claim: every hunk built under merge strategy is a merge hunk without removals, and RenderMerge converts deletions to null and refuses strict hunks. Agreement with the RFC 7386 algorithm on values is not decided.", "4 C11"),
- "C12": ("static analysis: hunk-literal rule on readMergeInto (R-MERGEHUNK reader side), strategy selection in patchAll (R-FWD driver), descent rule R-DESCEND, path freshness; fresh empty object enters a hunk only on the len==0 edge; R-DELETEVOID",
+ "C12": ("static analysis: hunk-literal rule on readMergeInto (R-MERGEHUNK reader side), strategy selection in patchAll (R-FWD driver), descent rule R-DESCEND, path freshness; fresh empty object enters a hunk only on the len==0 edge; R-DELETEVOID; R-NOTIGNORED",
          "Narrow claim: every hunk read from a merge patch is a merge hunk with its own path, null becomes a deletion, merge strategy is selected exactly for such hunks, and a hunk whose path is not exhausted is always handed on (intermediate objects). Conformance with the RFC pseudo-code on values is not decided.", "4 C12"),
- "C06": ("static analysis: provenance/dependence slices on the list diff (R-LCSDEP), one-line context shape (R-CTX1), context provenance (R-PROV); LCS-library result on every path through helpers; rules anchored at the walk set, not at one function",
+ "C06": ("static analysis: provenance/dependence slices on the list diff (R-LCSDEP), one-line context shape (R-CTX1), context provenance (R-PROV); LCS-library result on every path through helpers; rules anchored at the walk set, not at one function; sub-diff kept on every path",
          "Narrow claim: the common subsequence the hunk walk uses is computed from both arrays' element hashes, the walk continues on the caller's own sequences, same-kind containers are diffed recursively, and every hunk carries one-element before/after context drawn from the right side. Minimality against an optimum and adjacency of the context on values are not decided.", "4 C06"),
- "C17": ("static analysis: R-FWD, R-OPTFWD, R-PROV, R-NOEMPTY, R-PATHFRESH instantiated on package lib (v1); R-DELETEVOID(lib), R-SCANERR(lib), R-IDENTUSE(lib), R-OBJRECURSE(lib)",
+ "C17": ("static analysis: R-FWD, R-OPTFWD, R-PROV, R-NOEMPTY, R-PATHFRESH instantiated on package lib (v1); R-DELETEVOID(lib), R-SCANERR(lib), R-IDENTUSE(lib), R-OBJRECURSE(lib); R-NOTIGNORED(lib), R-PATCHRESULT(lib)",
          "Narrow claim: forwarding of values/strategy/path through every recursive v1 patch call, metadata forwarding through every comparison (three named exemptions outside C17's quantifier), provenance of old/new values, no empty hunks, hunks own their paths. Positional list arithmetic and path-metadata decoding are not decided.", "4 C17"),
  "C18": ("static analysis: R-PTR, R-PAIR, R-PATHFRESH, R-JSONCODEC instantiated on package lib (v1); R-DELETEVOID(lib), R-SCANERR(lib), R-WHOLEOBJ(lib)",
          "Narrow claim: the v1 JSON Pointer writer escapes keys (raw tokens only for strings Atoi accepted), never skips an element, emits only test/remove/add with guarded removes; hunks built by the v1 readers own their paths. Equivalence with RFC evaluators and deferred token typing are not decided.", "4 C18"),
